@@ -35,6 +35,18 @@ pub struct Spec {
     pub start_s: i64,
 }
 
+/// like `build_model`, but picks the first seed >= `seed` whose model has at least `min_files`
+/// non-empty files (the minimiser's `drop` list is applied afterwards)
+pub fn build_model_min(spec_gen: &GenParams, seed: u64, drop: &[usize], now_s: i64, min_files: usize) -> FsModel {
+    for d in 0..200u64 {
+        let m = gen_model(&mut Rng::new(seed.wrapping_add(d)), spec_gen, now_s);
+        if m.files().filter(|(_, b)| !b.is_empty()).count() >= min_files {
+            return build_model(spec_gen, seed.wrapping_add(d), drop, now_s);
+        }
+    }
+    build_model(spec_gen, seed, drop, now_s)
+}
+
 pub fn build_model(spec_gen: &GenParams, seed: u64, drop: &[usize], now_s: i64) -> FsModel {
     let mut m = gen_model(&mut Rng::new(seed), spec_gen, now_s);
     if !drop.is_empty() {
